@@ -943,16 +943,23 @@ fn partition(
     // a retained symbolic link). Dropping it would gain nothing and could destroy the only copy
     // of the data, so such sub-groups are retained as well.
     if !config.match_links || !same_entry_ids.is_empty() {
-        let retained_ids: std::collections::HashSet<FileId> = to_retain
-            .iter()
-            .flat_map(|g| g.files.iter().map(FileId::of))
-            .filter(|id| !config.match_links || same_entry_ids.contains(id))
-            .collect();
-        let (same_file, other): (Vec<_>, Vec<_>) = to_drop
-            .into_iter()
-            .partition(|g| g.files.iter().any(|f| retained_ids.contains(&FileId::of(f))));
-        to_retain.extend(same_file);
-        to_drop = other;
+        // (repeated, because a sub-group retained for this reason can in turn contain
+        // the same file as another sub-group to be dropped)
+        loop {
+            let retained_ids: std::collections::HashSet<FileId> = to_retain
+                .iter()
+                .flat_map(|g| g.files.iter().map(FileId::of))
+                .filter(|id| !config.match_links || same_entry_ids.contains(id))
+                .collect();
+            let (same_file, other): (Vec<_>, Vec<_>) = to_drop
+                .into_iter()
+                .partition(|g| g.files.iter().any(|f| retained_ids.contains(&FileId::of(f))));
+            to_drop = other;
+            if same_file.is_empty() {
+                break;
+            }
+            to_retain.extend(same_file);
+        }
     }
 
     assert!(to_retain.len() >= n || to_drop.is_empty());
